@@ -297,7 +297,10 @@ func runGate(c Case) lib.Result {
 		deadline := time.Now().Add(limit)
 		for {
 			contents, _, parked, isParked := g.snapshot()
-			if isParked || len(contents)+len(parked) >= accBytes || q.consumer == "" {
+			if isParked {
+				return quiesce(consID, limit) // parked is stable: refresh the goroutine states
+			}
+			if len(contents)+len(parked) >= accBytes || q.consumer == "" {
 				return q
 			}
 			if time.Now().After(deadline) {
